@@ -28,14 +28,16 @@ def c03(case):
     p, s = build(case)
     sol, out = H.run_script(s, [('solve',)])
     n = case['n']
-    if sol.numberOfGlobalTrials != len(p.log):
-        fails.append('reported trials %d != evaluations %d' % (sol.numberOfGlobalTrials, len(p.log)))
-    if len(p.log) > case['iters']:
-        fails.append('evaluations %d exceed itersLimit %d' % (len(p.log), case['iters']))
+    nglobal = len(p.log) - (sol.numberOfLocalTrials + 1 if case.get('refine') else 0)   # refinement: nfev calls + 1 final evaluation
+    if sol.numberOfGlobalTrials != nglobal:
+        fails.append('reported trials %d != objective evaluations of the global search %d' % (sol.numberOfGlobalTrials, nglobal))
+    if nglobal > case['iters']:
+        fails.append('evaluations %d exceed itersLimit %d' % (nglobal, case['iters']))
     if 'Exception was thrown' in out:
         fails.append('internal exception during Solve: ' + out.strip()[:200])
+    p.log = p.log[:max(nglobal, 0)]
     # twin: step one iteration at a time and recompute the interval that was subdivided
-    p2, s2 = build(case)
+    p2, s2 = build(case, refine=False)
     sel = []          # Hoelder length of each subdivided interval
     stop_at = None
     k = 0
